@@ -435,3 +435,37 @@ def run(ctx):
             )
     if nby < 2:
         raise AnalysisError(f"only {nby} direct option reads found (Job.get_raw_options itself should be among them)", "Job.get_raw_options")
+
+    # ---- C27.8 subclasses with another constructor override every cloning method ------------------
+    # Task.options()/export_options()/... clone with self.__class__(func, name=..., namespace=..., ...).  A subclass whose __init__ takes other
+    # parameters (PartialTask(task, args, kwargs)) must override each of them, otherwise the call raises TypeError instead of returning the clone.
+    r8 = ctx.rule("C27.8", "a Task subclass with an incompatible constructor overrides every method that clones through self.__class__(...)", floor=2)
+    base = tm.cls("Task")
+    clone_methods = {}
+    for st in base.body:
+        if isinstance(st, ast.FunctionDef):
+            for c in calls_in(st):
+                if src(c.func) in ("self.__class__", "type(self)"):
+                    clone_methods[st.name] = {k.arg for k in c.keywords if k.arg}
+    if len(clone_methods) < 2:
+        raise AnalysisError(f"Task clone methods found: {sorted(clone_methods)}", "Task")
+    for cm8, c8 in repo.subclasses(base):
+        if c8 is base:
+            continue
+        init8 = next((st for st in c8.body if isinstance(st, ast.FunctionDef) and st.name == "__init__"), None)
+        if init8 is None or init8.args.kwarg is not None:
+            continue
+        accepted = {a.arg for a in init8.args.args + init8.args.kwonlyargs}
+        own = {st.name for st in c8.body if isinstance(st, ast.FunctionDef)}
+        for mname, kws in sorted(clone_methods.items()):
+            missing = sorted(kws - accepted)
+            if not missing:
+                continue
+            r8.check(
+                mname in own,
+                f"{cm8.rel}:{c8.name}.{mname}:override",
+                f"{c8.name}.__init__ does not accept {missing[:3]}..., which Task.{mname}() passes to self.__class__(...), and {c8.name} does not override {mname}(): calling it raises TypeError "
+                f"(`{c8.name}.__init__() got an unexpected keyword argument`), so options cannot be set/exported on such a task at all",
+                cm8.rel,
+                c8.lineno,
+            )
